@@ -120,7 +120,7 @@ def run_shard(spec):
                 expect.append(w)
             if not calls:
                 continue
-            src = T.overload_program(sigs, calls)
+            src = T.overload_program(sigs, calls, caller_at=r.choice([None, 0, 1, len(sigs) - 1, r.randrange(len(sigs) + 1)]))
             res['evaluations'] += 1
             tag = 'overload/' + '|'.join(','.join(T.tname(t) for t in s) for s in sigs)
             run = diff.compile_and_run(src, (), word=2, stack=2000, max_steps=200_000)
